@@ -89,6 +89,53 @@ fn check(case: &DecCase, p: &mut Probe) -> Check {
     Ok(())
 }
 
+/// one decoder object per name serving a long run of frames (a simulation worker decodes thousands):
+/// 33..=70 frames with free LLRs under limits 0, 1, 2 (most of them fail), then 1..=4 frames of any
+/// class (exact codewords among them) under any limit; every single result is judged by the clauses
+/// of the property
+#[derive(Debug, Clone, serde::Serialize, serde::Deserialize)]
+pub struct HistCase {
+    pub h: Mat,
+    pub frames: Vec<(Vec<Fx>, usize)>,
+}
+
+fn hist_strategy(_t: Tier) -> proptest::prelude::BoxedStrategy<HistCase> {
+    use proptest::prelude::*;
+    decoder_matrix(6, 12)
+        .prop_flat_map(|h| {
+            let l = llr_vector(&h);
+            let n = h.cols;
+            (Just(h), proptest::collection::vec((proptest::collection::vec(-4.0f64..4.0, n), prop_oneof![3 => Just(0usize), 1 => Just(1usize), 1 => Just(2usize)]), 33..=70), proptest::collection::vec((l, limit_strategy()), 1..=4))
+        })
+        .prop_map(|(h, a, b)| HistCase { h, frames: a.into_iter().chain(b).map(|(v, l)| (v.into_iter().map(Fx).collect(), l)).collect() })
+        .boxed()
+}
+
+fn check_hist(case: &HistCase, p: &mut Probe) -> Check {
+    let hs = case.h.to_sparse();
+    let frames: Vec<(Vec<f64>, usize)> = case.frames.iter().map(|(v, l)| (fx_vec(v), *l)).collect();
+    let mut zero_after_many = false;
+    for imp in factory_variants() {
+        let name = imp.to_string();
+        let mut dec = build_factory(&imp, hs.clone());
+        let mut failures_in_a_row = 0usize;
+        for (i, (llrs, limit)) in frames.iter().enumerate() {
+            let res = guarded(|| dec.decode(llrs, *limit)).map_err(|e| Fail::new("panic", format!("{name}: call {i} on one decoder object panicked: {e}")))?;
+            check_one(&format!("{name} (call {i} on one decoder object, after {failures_in_a_row} calls in a row that did not succeed)"), &res, &case.h, llrs, *limit)?;
+            if res.is_ok() {
+                zero_after_many |= failures_in_a_row >= 32 && case.h.syndrome_ok(&sign_pattern(llrs));
+                failures_in_a_row = 0;
+            } else {
+                failures_in_a_row += 1;
+            }
+            p.inner += 1;
+        }
+    }
+    p.class_if(zero_after_many, "codeword-frame-after-32-or-more-failures");
+    p.nontrivial();
+    Ok(())
+}
+
 /// matrices without any check (0 x n: "every check involves at least two bits" holds for each of
 /// the none there are): every word is a codeword, so every call succeeds with 0 iterations and the
 /// sign pattern of its input
@@ -132,6 +179,14 @@ pub fn property() -> Property {
                 check,
                 health: &[("converged-after>=1", 0.20), ("failed-at-limit>=1", 0.20), ("zero-iteration", 0.05), ("limit-0", 0.05)],
             }),
+            Box::new(Sub {
+                name: "long-lived-object",
+                rule: "H up to 6 x 12; one decoder object per name decodes 33..=70 frames with free LLRs in (-4, 4) under limits 0, 1, 2 and then 1..=4 frames of the classes above (exact codewords among them) under any limit: every single result satisfies the clauses of the property (in particular 0 iterations exactly for sign patterns that are codewords, however many calls failed before)",
+                cases: |t| t.pick(1_000, 30_000),
+                strategy: hist_strategy,
+                check: check_hist,
+                health: &[],
+            }),
             Box::new(EnumSub {
                 name: "no-checks",
                 rule: "matrices 0 x n (n = 1, 2, 6, 64, 257) x four LLR vectors x the 36 names x limits 0, 1, 7 on one object: Ok with 0 iterations and the sign pattern of the input",
@@ -149,7 +204,7 @@ pub fn property() -> Property {
             }),
             Box::new(Sub {
                 name: "real-codes",
-                rule: "the toolbox's own codes (DVB-S2 short 1/2 and 8/9, AR4JA k=1024 rate 1/2 and 4/5 with their punctured block as exact zeros) and a synthetic staircase code of 70 600 bits (longer than 2^16, which no code of the toolbox is), a codeword from an own encoder / null-space sample, deterministic AWGN from the case seed with sigma around the decoding threshold (0.2..2.0), limits {0,1,5,20,50}; the same validity predicate for all 36 implementations; non-trivial = limit >= 1",
+                rule: "the toolbox's own codes (DVB-S2 short 1/2 and 8/9, AR4JA k=1024 rate 1/2 and 4/5 with their punctured block as exact zeros) and a synthetic staircase code of 70 600 bits (longer than 2^16, which no code of the toolbox is), a codeword from an own encoder / null-space sample, deterministic AWGN from the case seed with sigma around the decoding threshold (0.3..2.0 times the threshold; one case in seven 0.05..0.2 times it, where the sign pattern is the codeword itself), limits {0,1,5,20,50}; the same validity predicate for all 36 implementations; non-trivial = limit >= 1",
                 cases: |t| t.pick(48, 2_000),
                 strategy: super::realcodes::strategy,
                 check: super::realcodes::check_c01,
